@@ -265,3 +265,19 @@ Example C40_ideal_world_inhabited : forall st i,
   i_pool i <> 0 -> i_total i <> 0 -> i_slot i <= max_int64 ->
   exists h, build_header IP st i = BOk h.
 Proof. exact IP_builds. Qed.
+
+(* ---- no hidden state: the model's validator has no history parameter, so in any
+   sequence of validations by one validator the verdict on a header is the verdict a fresh
+   validator gives, whatever was validated before or after.  The correspondence run
+   validates HISTORIES on long-lived HeaderValidator instances (genuine -> tampered,
+   tampered -> genuine -> tampered, two pools interleaved) and compares every step with
+   this stateless model: that is what ties "validation is a function of (header, context)"
+   to the code. *)
+Definition run_history (P : prims) (c : vcfg) (hist : list vinput) : list (list check * option bytes) :=
+  map (validate_header P c) hist.
+Theorem C40_history_independent : forall P c pre i post,
+  nth (length pre) (run_history P c (pre ++ i :: post)) ([], None) = validate_header P c i.
+Proof.
+  intros. unfold run_history. rewrite map_app, app_nth2; rewrite map_length; [|lia].
+  rewrite Nat.sub_diag. reflexivity.
+Qed.
